@@ -178,7 +178,10 @@ impl HasShapeType for Polyline {
 impl ConcreteReadableShape for Polyline {
     fn read_shape_content<T: Read>(source: &mut T, record_size: i32) -> Result<Self, Error> {
         let rdr = MultiPartShapeReader::<Point, T>::new(source)?;
-        if record_size != Self::size_of_record(rdr.num_points, rdr.num_parts) as i32 {
+        if !record_size_is(
+            record_size,
+            Self::size_of_record(rdr.num_points, rdr.num_parts),
+        ) {
             Err(Error::InvalidShapeRecordSize)
         } else {
             rdr.read_xy().map_err(Error::IoError).map(|rdr| Self {
@@ -253,15 +256,20 @@ impl ConcreteReadableShape for PolylineM {
     fn read_shape_content<T: Read>(source: &mut T, record_size: i32) -> Result<Self, Error> {
         let rdr = MultiPartShapeReader::<PointM, T>::new(source)?;
 
-        let record_size_with_m = Self::size_of_record(rdr.num_points, rdr.num_parts, true) as i32;
-        let record_size_without_m =
-            Self::size_of_record(rdr.num_points, rdr.num_parts, false) as i32;
+        let m_is_used = record_size_is(
+            record_size,
+            Self::size_of_record(rdr.num_points, rdr.num_parts, true),
+        );
+        let m_is_not_used = record_size_is(
+            record_size,
+            Self::size_of_record(rdr.num_points, rdr.num_parts, false),
+        );
 
-        if (record_size != record_size_with_m) && (record_size != record_size_without_m) {
+        if !m_is_used && !m_is_not_used {
             Err(Error::InvalidShapeRecordSize)
         } else {
             rdr.read_xy()
-                .and_then(|rdr| rdr.read_ms_if(record_size == record_size_with_m))
+                .and_then(|rdr| rdr.read_ms_if(m_is_used))
                 .map_err(Error::IoError)
                 .map(|rdr| Self {
                     bbox: rdr.bbox,
@@ -342,16 +350,21 @@ impl ConcreteReadableShape for PolylineZ {
     fn read_shape_content<T: Read>(source: &mut T, record_size: i32) -> Result<Self, Error> {
         let rdr = MultiPartShapeReader::<PointZ, T>::new(source)?;
 
-        let record_size_with_m = Self::size_of_record(rdr.num_points, rdr.num_parts, true) as i32;
-        let record_size_without_m =
-            Self::size_of_record(rdr.num_points, rdr.num_parts, false) as i32;
+        let m_is_used = record_size_is(
+            record_size,
+            Self::size_of_record(rdr.num_points, rdr.num_parts, true),
+        );
+        let m_is_not_used = record_size_is(
+            record_size,
+            Self::size_of_record(rdr.num_points, rdr.num_parts, false),
+        );
 
-        if (record_size != record_size_with_m) && (record_size != record_size_without_m) {
+        if !m_is_used && !m_is_not_used {
             Err(Error::InvalidShapeRecordSize)
         } else {
             rdr.read_xy()
                 .and_then(|rdr| rdr.read_zs())
-                .and_then(|rdr| rdr.read_ms_if(record_size == record_size_with_m))
+                .and_then(|rdr| rdr.read_ms_if(m_is_used))
                 .map_err(Error::IoError)
                 .map(|rdr| Self {
                     bbox: rdr.bbox,
